@@ -14,6 +14,7 @@ import Mochi.Driver.Reader
 import Mochi.Driver.Hostile
 import Mochi.Driver.Restart
 import Mochi.Driver.Crash
+import Mochi.Driver.Shutdown
 open Mochi.Driver
 
 structure DState where
@@ -25,6 +26,7 @@ structure DState where
   storage : St.StState := {}
   hostile : HState := {}
   restart : St.SrState := {}
+  shutdown : SdState := {}
 
 /-- input line: `op args…<TAB>implementation output`;
     answer line: `model output<TAB>spec verdict<TAB>signature`; unknown op => `bad-op` -/
@@ -61,6 +63,9 @@ def answer (st : DState) (line : String) : DState × String :=
                 | none =>
                   match (St.crashOp st.restart impl ws <|> St.restartOp st.restart impl ws) with
                   | some (s', r) => ({ st with restart := s' }, fmt r)
+                  | none =>
+                  match shutdownOp st.shutdown impl ws with
+                  | some (d', r) => ({ st with shutdown := d' }, fmt r)
                   | none => (st, "bad-op")
 
 partial def loop (h : IO.FS.Stream) (out : IO.FS.Stream) (st : DState) : IO Unit := do
